@@ -233,7 +233,9 @@ pub fn write_hf_coeff<S: Sample>(
                     let x = sx * 8 + dx as usize;
                     let y = sy * 8 + dy as usize;
 
-                    *coeff_grid.get_mut(x, y) += coeff;
+                    // Coefficients of an invalid stream may not fit in 32 bits when accumulated.
+                    let out = coeff_grid.get_mut(x, y);
+                    *out = out.wrapping_add(coeff);
 
                     is_prev_coeff_nonzero = 1;
                     non_zeros -= 1;
